@@ -31,6 +31,7 @@ RULE = (
     "thorough: all limits 512..len+2; limits < 512 behave as 512). Each (message, limit, "
     "prefer_truncation) is one evaluation. non-trivial = the limit dropped >= 1 record set (or raised "
     "TooBig) while >= 1 was kept, or padding with TSIG present"
+    ' Every case additionally renders with padding blocks 2..64 at the unlimited size (alignment coincidences).'
 )
 ASSUMPTIONS = [
     "vlib/ref/wire.py (independent walker) and vlib/ref/tsig_ref.py are trusted",
